@@ -220,6 +220,34 @@ def strict_decode(stream, crc_check=None):
         ends.append(s.pos - start)
     if s.pos - start != tot:
         raise SpecError(f'tot_cells_size {tot} but cell data occupies {s.pos - start} bytes')
+    # the level mask announced in d1 must be the one the content implies (DataCell::create): ordinary = OR of the children, pruned = its second
+    # data byte, library = 0, Merkle proof/update = (children) >> 1.  Computed bottom-up (references point forward).
+    masks = [None] * cells
+    for ci in range(cells - 1, -1, -1):
+        d1, d2, data, refs = out[ci]
+        exotic = (d1 >> 3) & 1
+        kids = [masks[x] for x in refs]
+        if not exotic:
+            m = 0
+            for k in kids:
+                m |= k
+        else:
+            t = data[0] if data and isinstance(data[0], int) else None
+            if t == 1:
+                m = data[1] if len(data) > 1 and isinstance(data[1], int) else None
+            elif t == 2:
+                m = 0
+            elif t == 3:
+                m = kids[0] >> 1 if kids else 0
+            elif t == 4:
+                m = (kids[0] | kids[1]) >> 1 if len(kids) > 1 else 0
+            else:
+                m = None
+        if m is None:
+            raise SpecError(f'cell {ci}: exotic cell of unknown type / undetermined level mask')
+        if d1 >> 5 != m:
+            raise SpecError(f'cell {ci}: d1 announces level mask {d1 >> 5:03b} but the content implies {m:03b}')
+        masks[ci] = m
     if index is not None:
         want = [e * 2 if cache else e for e in ends]
         got = [(x & ~1) if cache else x for x in index]
